@@ -547,9 +547,15 @@ impl Compress {
                 base_offset + (offset - initial_offset),
             ) {
                 assert!(ref_offset < 65536 >> 2); // Checked in dict.insert()
-                compressed.push((ref_offset >> 8) as u8 | 0xc0);
-                compressed.push((ref_offset & 0xff) as u8);
-                break;
+                // The parser follows at most DNS_MAX_HOSTNAME_INDIRECTIONS pointers per name:
+                // don't extend a chain that is already that long.
+                if Self::indirections(compressed, ref_offset)
+                    < DNS_MAX_HOSTNAME_INDIRECTIONS as usize
+                {
+                    compressed.push((ref_offset >> 8) as u8 | 0xc0);
+                    compressed.push((ref_offset & 0xff) as u8);
+                    break;
+                }
             }
             let offset_next = offset + 1 + label_len;
             compressed.extend_from_slice(&packet[offset..offset_next]);
@@ -562,6 +568,23 @@ impl Compress {
             name_len: compressed.len() - initial_compressed_len,
             final_offset,
         }
+    }
+
+    /// Returns the number of compression pointers followed when reading the
+    /// trusted name starting at `offset`.
+    fn indirections(packet: &[u8], mut offset: usize) -> usize {
+        let mut indirections = 0;
+        loop {
+            match packet[offset] {
+                0 => break,
+                len if len & 0xc0 == 0xc0 => {
+                    offset = (BigEndian::read_u16(&packet[offset..]) & 0x3fff) as usize;
+                    indirections += 1;
+                }
+                len => offset += len as usize + 1,
+            }
+        }
+        indirections
     }
 
     /// Compress a name starting at `offset` using the suffix dictionary `dict`
